@@ -77,6 +77,12 @@ CHECKS = {
          "PARTIAL: agreement with the declarative rounding is decided per generated input by the Lean oracle (whose rounding spec is the one proved equal to with_scale_round in C06), not yet as a theorem "
          "about the character-level model. Trusted: Lean kernel, extractor, harness/driver, pad_integral model.",
          "Lean 4 executable model (text-exact correspondence) + declarative rounding oracle; partial proof", "DESIGN.md §5 C16"),
+ "C17": ("Lean model of the serde glue: Serialize = the Display model of C04, Deserialize of strings and of arbitrary-precision JSON numbers = the parser model of C05 on the literal text (digit for "
+         "digit), the JSON-number adapters = serde_json's number grammar (recogniser) + the configured scale limit; integer/float tokens = exact conversions (IEEE bit semantics). Compared exactly "
+         "with the real serde_json round trips (string, Value, json_num, json_num_option incl. null, malformed numbers, limit +-1, token streams of every width). Kernel-checked so far: JSON-number "
+         "recogniser witnesses; the general theorems (display_is_json_number, json_number_accepted) are listed as open in DESIGN.md.",
+         "PARTIAL: decided per generated input by the Lean oracle. Trusted: serde/serde_json plumbing, the JSON grammar recogniser, Lean kernel, extractor, harness/driver.",
+         "Lean 4 executable model + oracle, differential correspondence; partial proof", "DESIGN.md §5 C17"),
 }
 
 NOT_YET = "check under construction in this round (not yet claimed); see DESIGN.md §11 order of work"
